@@ -381,6 +381,18 @@ theorem C02_every_schedule (w : Nat) (sched : Sys.Sched) (t : Nat)
   rw [h, h0] at hfin ⊢
   exact C02_every_thread_history w _ hs hwf hfin
 
+/-- a schedule of two threads: thread 0 writes `[true, "a"]` with a rejected call in between, thread 1
+    writes, logs and leaves its array unfinished, their steps interleaved -/
+def demoSched : Sys.Sched :=
+  [(0, .w false (.arr 2)), (1, .w false (.arr 1)), (0, .w false (.bool 1)), (1, .log 3 1),
+   (0, .w false .endarr), (0, .w false (.str #[0x61])), (1, .w false .null), (0, .w false .endarr)]
+
+/-- non-vacuity: the three hypotheses of `C02_every_schedule` hold for thread 0 of that schedule -/
+example : (∀ op ∈ SfVerif.Props.C14.script 0 demoSched, Op.wholeWrites op = true) ∧
+    (∀ a ∈ callsSince 32 {} [] (SfVerif.Props.C14.script 0 demoSched), a.wf = true) ∧
+    ((((Sys.runSched 32 {} demoSched).1.get 0).ctx.writer.finalize).1 = WriteResult_Ok) := by
+  refine ⟨by decide, by decide, by decide⟩
+
 /-- the wasm-only `finalize` export (not compiled natively; regenerated from provider/src/lib.rs) hands
     the host six words: the first two are the output buffer's address and its length — what `out?` / finalisation show natively is what the host reads on wasm -/
 theorem C02_wasm_finalize_words :
